@@ -17,7 +17,7 @@ from fractions import Fraction
 import numpy as np
 
 from common import F, Rng, close_all, digest, err_class, fl, pmat, pvec, rs
-from fpca_util import trapz_weights, pow2, EigCapture, Fm, Fv, Smat, Svec, curves, dense, grid, quiet, sel_to_py
+from fpca_util import trapz_weights, pow2, special_grids, EigCapture, Fm, Fv, Smat, Svec, curves, dense, grid, quiet, sel_to_py
 
 PROP = "C03"
 MODULES = ["FDAProofs.Props.C03"]
@@ -121,6 +121,14 @@ def gen_cases(rng: Rng, tier):
                 XB, _ = curves(rng, n, tB, kind)
                 case["B"] = dict(t=Svec(tB), X=Smat(XB))
         yield case
+    # offset / step ratio and non-uniform × tiny scale (every run): far-offset time stamps filling the mantissa, irregular
+    # grids with steps ≲ 1e-8; natural scores of both methods, with and without normalisation
+    for i, (label, t) in enumerate(special_grids(rng, rng.randint(5, 8))):
+        method = ["covariance", "inner-product"][i % 2]
+        X, ck = curves(rng, rng.randint(4, 6), t, "smooth" if method == "inner-product" else "rough")
+        yield dict(kind="ufpca", method=method, normalize=bool((i // 2) % 2), score="NumInt" if method == "covariance" else "InnPro",
+                   sel=["all"] if method == "covariance" else ["int", 1], ck=f"grid:{label}", dim=1, t=Svec(t), X=Smat(X),
+                   a="1", b="-1/2", seed=rng.subseed())
     # amplitude sweep (every run): data × 2^e, e = ±30, ±20 (≈ 1e-9 … 1e9), no normalisation, natural scores
     for i, e in enumerate([-30, 30, -20, -30]):
         method = ["covariance", "inner-product"][i % 2]
